@@ -32,6 +32,7 @@ import (
 	"path/filepath"
 	"runtime"
 	"sort"
+	"strings"
 	"sync"
 	"testing"
 	"time"
@@ -141,7 +142,7 @@ func (s c14Sub) selects(typ string, tx Transaction) bool {
 }
 
 type c14Op struct {
-	K      string `json:"k"` // add | addnp | pay | failwrite | badpayload | dup | orphan
+	K      string `json:"k"` // add | addnp | pay | failwrite | badpayload | dup | orphan | refuse (cause = c14RefusalCauses[Sel % len])
 	Sel    uint32 `json:"s,omitempty"`
 	Settle bool   `json:"q,omitempty"` // wait for the fixed point before the op
 }
@@ -206,7 +207,7 @@ func c14Gen(t *rapid.T) c14Case {
 	}
 	nops := rapid.IntRange(1, 32).Draw(t, "nops")
 	for i := 0; i < nops; i++ {
-		k := rapid.SampledFrom([]string{"add", "add", "add", "add", "add", "addnp", "pay", "pay", "failwrite", "badpayload", "dup", "orphan"}).Draw(t, "k")
+		k := rapid.SampledFrom([]string{"add", "add", "add", "add", "add", "addnp", "pay", "pay", "failwrite", "badpayload", "dup", "orphan", "refuse", "refuse", "refuse"}).Draw(t, "k")
 		c.Ops = append(c.Ops, c14Op{K: k, Sel: rapid.Uint32Range(0, 1000).Draw(t, "sel"), Settle: rapid.IntRange(0, 3).Draw(t, "settle") == 0})
 	}
 	maxStops := 2
@@ -489,6 +490,8 @@ type c14World struct {
 
 	// storage fault run: the pair whose notification was hit, and (write faults) the call whose outcome could not be
 	// recorded; faultRetry: the fault struck inside the retry loop, which the notifier then gives up until the next restart
+	nShape     int             // transactions of the shape; w.txs[nShape:] are extra root transactions (never admissible)
+	opCtx      context.Context // context of the next admitting call (nil: w.ctx)
 	mayFail    bool // the admitting op may return an error (put fault armed); refused tells that it did
 	refused    bool
 	faultPair  *c14Pair
@@ -511,6 +514,7 @@ func c14NewWorld(x *h.Ctx, c c14Case, txs []vdTx, res *vdKeyResolver) *c14World 
 		w.delay = 64
 	}
 	w.order = c.Shape.Order(c.Shape.Expand())
+	w.nShape = len(w.order)
 	for i, t := range txs {
 		w.byRef[t.Tx.Ref()] = i
 	}
@@ -530,6 +534,12 @@ func (w *c14World) subDelay(si int) time.Duration {
 func (w *c14World) receiver(inc *c14Inc, si int) ReceiverFn {
 	return func(ev Event) (bool, error) {
 		at := time.Since(w.t0)
+		// "a transaction that was not admitted is never delivered": what the state itself says at this moment
+		onDag, _ := inc.st.IsPresent(w.ctx, ev.Hash)
+		stored := true
+		if ev.Type == PayloadEventType && ev.Transaction != nil {
+			stored, _ = inc.st.IsPayloadPresent(w.ctx, ev.Transaction.PayloadHash())
+		}
 		w.mu.Lock()
 		if inc.stopped {
 			w.mu.Unlock()
@@ -554,6 +564,10 @@ func (w *c14World) receiver(inc *c14Inc, si int) ReceiverFn {
 				bad = "transaction"
 			case ev.Type == PayloadEventType && !bytes.Equal(ev.Payload, w.txs[ti].Payload):
 				bad = "payload"
+			case !onDag:
+				bad = "not-on-dag"
+			case !stored:
+				bad = "payload-not-stored"
 			}
 		}
 		w.ledger = append(w.ledger, c14Call{Seq: len(w.ledger), Inc: inc.n, Sub: si, Tx: ti, Type: ev.Type, Retries: ev.Retries, Resp: resp, N: n, At: at, Bad: bad})
@@ -645,6 +659,14 @@ func (w *c14World) open(dir string) *c14Inc {
 		inc.nots = append(inc.nots, n)
 	}
 	inc.start = w.shelves(inc)
+	// what a (re)started node finds on its job shelves is what Run() will deliver: only admitted events may be there
+	for si, jobs := range inc.start {
+		for e := range jobs {
+			if _, ok := w.adm[e]; !ok {
+				w.viol("job-for-unadmitted-transaction", "incarnation %d starts with a job of subscriber %d for the %s event of transaction %d, which was never admitted", inc.n, si, e.Type, e.Tx)
+			}
+		}
+	}
 	return inc
 }
 
@@ -871,14 +893,18 @@ func (w *c14World) admit(inc *c14Inc, op c14Op, wantFail bool) {
 	w.mu.Unlock()
 	t := w.txs[tx]
 	var err error
+	ctx := w.ctx
+	if w.opCtx != nil {
+		ctx = w.opCtx
+	}
 	if op.K == "pay" {
-		err = inc.st.WritePayload(w.ctx, t.Tx, t.Tx.PayloadHash(), t.Payload)
+		err = inc.st.WritePayload(ctx, t.Tx, t.Tx.PayloadHash(), t.Payload)
 	} else {
 		var payload []byte
 		if len(evs) == 2 {
 			payload = t.Payload
 		}
-		err = inc.st.Add(w.ctx, t.Tx, payload)
+		err = inc.st.Add(ctx, t.Tx, payload)
 	}
 	if wantFail {
 		if err == nil {
@@ -940,6 +966,8 @@ func (w *c14World) exec(inc *c14Inc, op c14Op) {
 		inc.kv.armFailures(1)
 		w.admit(inc, which, true)
 		inc.kv.armFailures(0)
+	case "refuse":
+		w.refuse(inc, op)
 	case "badpayload":
 		if w.next >= len(w.order) {
 			return
@@ -975,6 +1003,127 @@ func (w *c14World) exec(inc *c14Inc, op c14Op) {
 	}
 }
 
+// c14RefusalCauses: ways an Add (carrying its payload where the transaction is public) can be refused after verification
+// passed, i.e. somewhere inside the admission itself. "a transaction that was not admitted is never delivered": whatever
+// the cause, a refused Add leaves the job shelves of all subscribers exactly as they were.
+var c14RefusalCauses = []string{"second-root", "put:" + transactionsShelf, "put:" + clockShelf, "put:" + headsShelf, "put:" + metadataShelf,
+	"put:" + payloadsShelf, "put:" + xorShelf, "put:" + ibltShelf, "put:jobs", "put:jobs", "cancel@1", "cancel@2", "cancel@2", "commit", "second-root", "second-root"}
+
+// rawShelves returns the job shelves of the persistent subscribers byte for byte.
+func (w *c14World) rawShelves(inc *c14Inc) map[string]string {
+	out := map[string]string{}
+	for si, s := range w.c.Subs {
+		if !s.Persistent {
+			continue
+		}
+		name := inc.nots[si].(*notifier).shelfName()
+		err := inc.kv.vdFaultKV.ReadShelf(w.ctx, name, func(r stoabs.Reader) error {
+			return r.Iterate(func(k stoabs.Key, v []byte) error {
+				out[name+"/"+string(k.Bytes())] = string(v)
+				return nil
+			}, stoabs.BytesKey{})
+		})
+		w.x.NoErr(err, "read job shelf")
+	}
+	return out
+}
+
+func (w *c14World) refuse(inc *c14Inc, op c14Op) {
+	cause := c14RefusalCauses[int(op.Sel)%len(c14RefusalCauses)]
+	w.waitQuiet("before refusal", nil)
+	if len(w.x.Violations()) > 0 {
+		return
+	}
+	before := w.rawShelves(inc)
+	payload := false
+	if cause == "second-root" {
+		if w.next == 0 || len(w.txs) <= w.nShape {
+			return // no root yet: the extra root would be admitted as THE root
+		}
+		t := w.txs[w.nShape+int(op.Sel/16)%(len(w.txs)-w.nShape)]
+		payload = true
+		if err := inc.st.Add(w.ctx, t.Tx, t.Payload); err == nil {
+			w.x.Fatalf("a second root transaction was admitted")
+		}
+		if present, _ := inc.st.IsPresent(w.ctx, t.Tx.Ref()); present {
+			w.viol("refused-admission-left-transaction", "Add of a second root returned an error but the transaction is on the DAG")
+		}
+		w.refused = true
+	} else {
+		tx, evs := w.peek(c14Op{K: "add"})
+		if tx < 0 {
+			return
+		}
+		payload = len(evs) == 2
+		w.refused, w.mayFail = false, true
+		switch {
+		case cause == "put:jobs":
+			// the job shelf of a persistent subscriber (chosen by Sel)
+			var names []string
+			for si, s := range w.c.Subs {
+				if s.Persistent {
+					names = append(names, inc.nots[si].(*notifier).shelfName())
+				}
+			}
+			name := names[int(op.Sel/16)%len(names)]
+			inc.kv.armPutFailure(name, 1)
+			w.admit(inc, c14Op{K: "add"}, false)
+			inc.kv.armPutFailure(name, 0)
+		case strings.HasPrefix(cause, "put:"):
+			inc.kv.armPutFailure(cause[4:], 1)
+			w.admit(inc, c14Op{K: "add"}, false)
+			inc.kv.armPutFailure(cause[4:], 0)
+		case strings.HasPrefix(cause, "cancel@"):
+			// the caller's context is cancelled while the n-th write transaction since now is about to commit
+			nth := int(cause[7] - '0')
+			ctx, cancel := context.WithCancel(w.ctx)
+			seen := 0
+			var mu sync.Mutex
+			inc.kv.mu.Lock()
+			inc.kv.onWriteBody = func(int) {
+				mu.Lock()
+				seen++
+				hit := seen == nth
+				mu.Unlock()
+				if hit {
+					cancel()
+				}
+			}
+			inc.kv.mu.Unlock()
+			w.opCtx = ctx
+			w.admit(inc, c14Op{K: "add"}, false)
+			w.opCtx = nil
+			inc.kv.mu.Lock()
+			inc.kv.onWriteBody = nil
+			inc.kv.mu.Unlock()
+			cancel()
+		case cause == "commit":
+			inc.kv.armFailures(1)
+			w.admit(inc, c14Op{K: "add"}, false)
+			inc.kv.armFailures(0)
+		}
+		w.mayFail = false
+	}
+	if !w.refused {
+		w.x.Class("refusal-cause-did-not-strike:" + strings.SplitN(cause, ":", 2)[0])
+		return // admitted like any other transaction
+	}
+	w.refused = false
+	w.x.Classf("refused:%s:payload=%v", strings.SplitN(cause, ":", 2)[0], payload)
+	w.waitQuiet("after refusal", nil)
+	after := w.rawShelves(inc)
+	same := len(after) == len(before)
+	for k, v := range before {
+		if after[k] != v {
+			same = false
+		}
+	}
+	if !same {
+		w.viol("refused-admission-changed-job-shelf", "incarnation %d: Add was refused (%s, payload given: %v) but the job shelves of the persistent subscribers changed: %d entries before, %d after",
+			inc.n, cause, payload, len(before), len(after))
+	}
+}
+
 // ---------------------------------------------------------------------------------------------------------------------
 // one stop run
 
@@ -1002,6 +1151,24 @@ func (w *c14World) execute(p c14StopPlan) {
 	op := ops[p.Pos]
 	if op.Settle {
 		w.waitQuiet("settle", nil)
+	}
+	if p.Trig != nil {
+		// the plan was made on a simulation of the history; make sure its pair is what this op really admits
+		tx, evs := w.peek(op)
+		ok := false
+		for _, e := range evs {
+			if e.Type == p.Trig.pair.Type && w.c.Subs[p.Trig.pair.Sub].selects(e.Type, w.txs[tx].Tx) {
+				ok = true
+				if e.Tx != p.Trig.pair.Tx {
+					x.Class("plan-retargeted")
+					p.Trig = &c14Trig{pair: c14Pair{p.Trig.pair.Sub, e.Tx, e.Type}, call: min(p.Trig.call, w.c.Subs[p.Trig.pair.Sub].beh(e.Tx).calls())}
+				}
+			}
+		}
+		if !ok {
+			x.Class("plan-dropped")
+			return
+		}
 	}
 	dir2 := x.TempDir()
 	inc1.snapPath = filepath.Join(dir2, "dag.db")
@@ -1343,7 +1510,9 @@ func (w *c14World) checkLedger() {
 			w.viol("delivered-unselected", "subscriber %d received the %s event of transaction %d which its filter does not select", c.Sub, c.Type, c.Tx)
 			continue
 		}
-		if c.Bad != "" {
+		if c.Bad == "not-on-dag" || c.Bad == "payload-not-stored" {
+			w.viol("delivered-"+c.Bad+":"+phase(c.Inc), "incarnation %d: subscriber %d received the %s event of transaction %d while the state reports: %s", c.Inc, c.Sub, c.Type, c.Tx, c.Bad)
+		} else if c.Bad != "" {
 			w.viol("delivered-damaged:"+c.Bad, "incarnation %d: the %s event of transaction %d handed to subscriber %d does not carry the %s that was admitted", c.Inc, c.Type, c.Tx, c.Sub, c.Bad)
 		}
 		k := key{p, c.Inc}
@@ -1552,6 +1721,17 @@ func c14Plans(c c14Case, txs []vdTx) []c14StopPlan {
 	}
 	var adms []admitting
 	for i, op := range c.Ops {
+		if op.K == "refuse" && c14RefusalCauses[int(op.Sel)%len(c14RefusalCauses)] == "cancel@2" {
+			// the context is cancelled after the (single) admission transaction committed: admitted like "add". Not a
+			// position for stops. (Should any other cause not strike either, execute re-targets its plan at run time.)
+			if tx, evs := sim.peek(c14Op{K: "add"}); tx >= 0 {
+				sim.next++
+				if len(evs) == 1 {
+					sim.pending = append(sim.pending, tx)
+				}
+			}
+			continue
+		}
 		switch op.K {
 		case "add", "addnp", "pay":
 			tx, evs := sim.peek(op)
@@ -1681,6 +1861,10 @@ func c14Run(x *h.Ctx, c c14Case) {
 	txs := c14Build(c.Shape, c.Share, res)
 	if len(txs) > 200 {
 		return
+	}
+	nShape := len(txs)
+	for k := 0; k < 2; k++ { // two more root transactions, public, one per payload type: never admissible once there is a root
+		txs = append(txs, c14BuildOne(nShape+k, k, []string{c14PTdid, c14PTvc}[k], c14Payload(nShape+k, c.Share), nil, res))
 	}
 	plans := c14Plans(c, txs)
 	if len(plans) == 0 {
